@@ -1,6 +1,8 @@
 CONSTANTS
   MaxBlocks = 4
   MaxInv = 2
+  FileLimit = 3
+  PosBeforeRollover = FALSE
   MaxRestarts = 3
   TxU <- TxUDef
   Lists <- ListsThorough
@@ -12,6 +14,6 @@ CONSTANTS
 INIT InitI
 NEXT NextI
 VIEW ViewI
-INVARIANTS UtxoIsReplay NoIndexErrorClean OnlyKnownError SyncedCoversChain TxIndexAgrees SpenderAgreesClean EntriesFound CoinStatsAgree FiltersAgree RunningStateAgrees CommitBehindFlush EmitRows
+INVARIANTS UtxoIsReplay NoIndexErrorClean OnlyKnownError SyncedCoversChain TxIndexAgrees SpenderAgreesClean EntriesFound CoinStatsAgree FiltersAgree FilterBytesAgree StaleFilterBytesAgree RunningStateAgrees CommitBehindFlush EmitRows
 ACTION_CONSTRAINT EmitI
 CHECK_DEADLOCK FALSE
